@@ -43,6 +43,9 @@ class Driver:
         self.acts, self.snaps = [], []
         self.intr_seen, self.intrs = set(), []
         self.recv = []
+        self.pokes = []              # [target pid, time] of Process.interrupt() calls made by the driver itself
+        self.exit_releases = []      # number of Release events created by each with-exit
+        self.with_intr_exits = []    # indices of the Ex actions made by a real `with` statement that was left by an Interrupt
         self.raised = None
         self.pid_of = {}
         self.procs = []
@@ -66,10 +69,8 @@ class Driver:
                 self.intr_seen.add(id(ev))
                 self.keep.append(ev)
                 c = ev._value.cause
-                if isinstance(c, self.R.Preempted):
+                if isinstance(c, self.R.Preempted):      # (the driver's own plain interrupts are not the resource's)
                     self.intrs.append([self.pid_of.get(id(ev.process), -1), self.pid_of.get(id(c.by), -1), c.usage_since])
-                else:
-                    self.intrs.append([self.pid_of.get(id(ev.process), -1), -2, None])
         # cross-check of the recording itself: pending = triggered and not processed
         flags = sorted(i for i, o in ((self.evid[id(o)], o) for o in self.keep if id(o) in self.evid)
                        if o.triggered and o.callbacks is not None)
@@ -123,14 +124,16 @@ class Driver:
         self.act("Cn", pid, self.evid[id(r)])
 
     def note_exit(self, pid, r):
-        """r.__exit__ has just run: find the Release it created"""
+        """r.__exit__ has just run: find the Release it created.  The code creates exactly one; if a changed
+        __exit__ creates none (or several) the operation is still logged as the with-exit it is, and the monitor
+        judges what it did to the resource."""
         new = [e[3] for e in sorted(self.env._queue, key=lambda e: e[2])
                if isinstance(e[3], self.R.Release) and id(e[3]) not in self.evid and e[3].resource is self.res]
-        if len(new) != 1:
-            raise RuntimeError("recording: with-exit created %d Release events" % len(new))
-        self.register(new[0])
-        self.watch(new[0])
+        for rel in new:
+            self.register(rel)
+            self.watch(rel)
         self.act("Ex", pid, self.evid[id(r)])
+        self.exit_releases.append(len(new))
 
     def op_exit(self, pid, r):
         r.__exit__(None, None, None)
@@ -190,29 +193,51 @@ class Driver:
                     elif op == "with":
                         if st["active"]:
                             continue
-                        r = None
+                        r, by_intr = None, False
                         try:
-                            if self.kind == "res":
-                                cm = self.res.request()
-                            else:
-                                cm = self.res.request(priority=ins[1], preempt=ins[2])
-                            with cm as r:
-                                i = self.register(r)
-                                self.reqobj[i] = r
-                                self.reqs[i] = [pid, ins[1], ins[2], env.now]
-                                self.watch(r)
-                                self.act("Rq", pid, ins[1], ins[2])
-                                st["cur"], st["active"], st["cancelled"] = r, True, False
-                                st["mine"].append(r)
-                                if ins[4]:
-                                    yield r
-                                yield env.timeout(ins[3])
+                            try:
+                                if self.kind == "res":
+                                    cm = self.res.request()
+                                else:
+                                    cm = self.res.request(priority=ins[1], preempt=ins[2])
+                                with cm as r:
+                                    i = self.register(r)
+                                    self.reqobj[i] = r
+                                    self.reqs[i] = [pid, ins[1], ins[2], env.now]
+                                    self.watch(r)
+                                    self.act("Rq", pid, ins[1], ins[2])
+                                    st["cur"], st["active"], st["cancelled"] = r, True, False
+                                    st["mine"].append(r)
+                                    if ins[4]:
+                                        yield r
+                                    yield env.timeout(ins[3])
+                            except Interrupt:
+                                by_intr = True
+                                raise
                         finally:
                             if r is not None:
                                 self.note_exit(pid, r)
+                                if by_intr:
+                                    self.with_intr_exits.append(len(self.acts) - 1)
                                 if not r.triggered:
                                     st["cancelled"] = True
                                 st["active"] = False
+                    elif op == "intr_g":
+                        # interrupt the owner of a request that was granted in this instant and whose grant event the
+                        # kernel has not processed yet (it is about to resume with the slot)
+                        cand = [self.reqs[self.evid[id(u)]][0] for u in self.res.users
+                                if id(u) in self.evid and u.callbacks is not None]
+                        cand = [q for q in cand if q != pid and self.procs[q].is_alive]
+                        if cand:
+                            q = cand[ins[1] % len(cand)]
+                            self.procs[q].interrupt("poke")
+                            self.pokes.append([q, env.now])
+                    elif op == "intr":
+                        q = ins[1] % len(self.procs)
+                        target = self.procs[q]
+                        if q != pid and target.is_alive:
+                            target.interrupt("poke")
+                            self.pokes.append([q, env.now])
                     elif op == "rel_old":
                         old = [x for x in st["mine"] if x is not st["cur"]]
                         if old:
@@ -280,6 +305,7 @@ class Driver:
                 self.snaps[i] = self.snapshot()
         return {"acts": self.acts, "snaps": self.snaps, "intrs": self.intrs, "recv": self.recv,
                 "reqs": {str(k): v for k, v in self.reqs.items()}, "raised": self.raised, "steps": steps,
+                "pokes": self.pokes, "exit_releases": self.exit_releases, "with_intr_exits": self.with_intr_exits,
                 "left": len(env._queue)}
 
 
@@ -322,6 +348,10 @@ class C06(Prop):
                 hold = rng.choice([0, 1, 1, 2, 3])
                 if style < 0.35:                     # classic session
                     script += [["req", prio, pre], ["y"], ["w", hold], [rng.choice(["rel", "rely", "exit", "rel"])]]
+                    if script[-1][0] == "rely" and rng.random() < 0.5:
+                        # resumed by the Release event itself, i.e. right after its rescan granted the slot to the next
+                        # waiter and before that grant is processed: interrupt somebody (often that very waiter)
+                        script += [rng.choice([["intr", rng.randint(0, nproc - 1)], ["intr_g", rng.randint(0, 3)], ["intr_g", 0]])]
                 elif style < 0.55:                   # real with-block
                     script += [["with", prio, pre, hold, rng.random() < 0.85]]
                 elif style < 0.8:                    # impatient: give up (or not) after a while
@@ -342,6 +372,10 @@ class C06(Prop):
                     script += [["w", 0]]
                 elif noise < 0.6:
                     script += [["w", rng.choice([1, 2])]]
+                elif noise < 0.68:
+                    script += [["intr", rng.randint(0, nproc - 1)]]      # Process.interrupt() of some other driver process
+                elif noise < 0.78:
+                    script += [["intr_g", rng.randint(0, 3)]]            # ... of one whose grant is triggered but unprocessed
             procs.append({"start": rng.choice([0, 0, 0, 1, 1, 2, 3]), "script": script})
         return {"kind": "hist", "res": kind, "cap": cap, "procs": procs}
 
@@ -399,6 +433,13 @@ class C06(Prop):
         tgrant = {}
         req_ids, nrq = sorted(R), 0
         evictions = []          # (time, victim id, evictor id)
+        given_up = set()        # granted requests that were released / whose with-block was left: their slot must be free
+        nexit = 0
+
+        def idle(users, queue):
+            """slots nobody is entitled to any more while somebody waits"""
+            held = [u for u in users if u not in given_up]
+            return bool(queue) and len(held) < cap
         for n, (a, s) in enumerate(zip(obs["acts"], obs["snaps"])):
             now, users, queue, count, pend, trig, nint = s
             pusers, pqueue, ptrig = prev[1], prev[2], set(prev[5])
@@ -441,14 +482,24 @@ class C06(Prop):
             elif a[0] == "Ad":
                 if prev[4]:
                     msgs.append(f"advance-with-pending: {where}: events {prev[4]} of the resource are triggered and unprocessed")
-                if pqueue and len(pusers) < cap:
-                    msgs.append(f"idle-slot-at-advance: {where}: requests {pqueue} wait while {cap - len(pusers)} slot(s) are free (users {pusers})")
+                if idle(pusers, pqueue):
+                    leaked = [u for u in pusers if u in given_up]
+                    msgs.append(f"idle-slot-at-advance: {where}: requests {pqueue} wait while {cap - len(pusers) + len(leaked)} slot(s) are free "
+                                f"(users {pusers}" + (f", of which {leaked} were released / left their with-block" if leaked else "") + ")")
                 if users != pusers or queue != pqueue or new:
                     msgs.append(f"advance-changed-state: {where}")
             if cancelled is not None and cancelled in queue:
                 msgs.append(f"cancel-ineffective: {where}: request {cancelled} is still queued")
-            if a[0] == "Ex" and released in users:
-                msgs.append(f"release-changed-state: {where}: request {released} is still a user after the with-exit")
+            if a[0] == "Ex":
+                if released in users:
+                    msgs.append(f"with-exit-keeps-slot: {where}: request {released} is still a user after its with-block was left"
+                                + ("" if obs["exit_releases"][nexit] else " (no Release was created)"))
+                nexit += 1
+            if released is not None and released in ptrig:
+                given_up.add(released)
+            stale = [u for u in users if u in given_up and a[0] not in ("Rl", "Ex")]
+            if stale and not any(m.startswith("released-request-is-user") for m in msgs):
+                msgs.append(f"released-request-is-user: {where}: request(s) {stale} occupy a slot although they were released / their with-block was left")
             if gone:
                 # users that vanish without a release: evictions
                 if kind != "preempt":
@@ -493,12 +544,20 @@ class C06(Prop):
             now, users, queue = obs["snaps"][-1][0:3]
             if obs["snaps"][-1][4]:
                 msgs.append(f"advance-with-pending: end of run: events {obs['snaps'][-1][4]} unprocessed")
-            if queue and len(users) < cap:
-                msgs.append(f"idle-slot-at-advance: end of run t={now}: requests {queue} wait while a slot is free (users {users})")
+            if idle(users, queue):
+                msgs.append(f"idle-slot-at-advance: end of run t={now}: requests {queue} wait while a slot is free (users {users}, "
+                            f"released / left with-block: {[u for u in users if u in given_up]})")
         # the victims really receive Interrupt(Preempted(by, usage_since, resource))
         exp = sorted([R[v][0], t, 1, R[e][0], tgrant.get(v), 1] for (t, v, e) in evictions)
-        got = sorted(obs["recv"], key=lambda x: (x[0], x[1]))
+        got = sorted((x for x in obs["recv"] if x[2] == 1), key=lambda x: (x[0], x[1]))
+        poked = sorted([x[0], x[1]] for x in obs["recv"] if x[2] != 1)
         if not obs["raised"] and obs["left"] == 0:
+            issued = sorted(obs["pokes"])
+            for x in poked:          # (one issued to a process that ended in the meantime is dropped by the kernel)
+                if x in issued:
+                    issued.remove(x)
+                else:
+                    msgs.append(f"spurious-interrupt: process {x[0]} received an interrupt without Preempted cause at t={x[1]} that the driver did not issue")
             for x in exp:
                 if x not in got:
                     near = [g for g in got if g[0] == x[0] and g[1] == x[1]]
@@ -509,8 +568,9 @@ class C06(Prop):
             for g in got:
                 if g not in exp:
                     msgs.append(f"spurious-interrupt: process {g[0]} received {g} at t={g[1]} without having been evicted")
-            if len(obs["intrs"]) != len(evictions):
-                msgs.append(f"interrupt-count: {len(obs['intrs'])} Interruption events for {len(evictions)} evictions")
+            npre = len(obs["intrs"])
+            if npre != len(evictions):
+                msgs.append(f"interrupt-count: {npre} Interruption events with a Preempted cause for {len(evictions)} evictions")
         return msgs[:6]
 
     # ---- evidence helpers ----------------------------------------------------------------------------
@@ -548,7 +608,20 @@ class C06(Prop):
             keys.append("has-several-evictions")
         prev = [0, [], [], 0, [], [], 0]
         flags = set()
-        for a, s in zip(acts, obs["snaps"]):
+        if obs.get("pokes"):
+            flags.add("has-plain-interrupt")
+        via = {}
+        wi = set(obs.get("with_intr_exits", []))
+        for n, (a, s) in enumerate(zip(acts, obs["snaps"])):
+            for g in s[5]:
+                if g not in via:
+                    via[g] = a[0]
+            if a[0] == "Ex" and a[2] in prev[1] and [0, a[2]] in prev[4]:
+                # the with-block is left (by an Interrupt) while the grant is triggered but not yet processed
+                how = {"Rq": "at-request", "Pr": "by-release-rescan"}.get(via.get(a[2]), "otherwise")
+                flags.add("with-exit-before-grant-processed:granted-" + how)
+                if n in wi:
+                    flags.add("interrupted-inside-with-at-grant-instant:granted-" + how)
             if a[0] == "Cn" and a[2] in prev[2]:
                 flags.add("cancel-of-queued")
                 if len(s[5]) > len(prev[5]):
